@@ -37,6 +37,20 @@ ODD = ["\x0b", "\x0c", "\x1c", "\x1d", "\x1e", "\x85", "\u2028", "\u2029", "\x1f
 ODD_BODY = [f's = "a{c}b"\nprint(s)' for c in ODD] + [f"t = 'x{ODD[0]}y{ODD[6]}z'", f'u = """k{ODD[2]}\nl{ODD[5]}"""',
                                                       "v = 'carriage\rreturn'", f"w = 1  # comment {ODD[7]} here"]
 
+# manual hints ADDING a label whose name the program also gets from an SQL query of spec.md (the parser then returns two
+# entries of that name) or from a regex feature (one merged entry): one-line, pair (`name...` … `...name`), whole-program
+HINTED = [
+    "a = 1 + 2\nb = 3 # paroxython: addition_operator",
+    "# paroxython: addition_operator\na = 1 + 2\nb = 3",
+    "a = 1 + 2 # paroxython: addition_operator...\nb = 3\nc = 4 # paroxython: ...addition_operator",
+    "for i in range(3):\n    print(i)\nx = 1 # paroxython: loop:for",
+    "s = 'a' + 'b'\nt = 0 # paroxython: concatenation_operator:Str",
+    "def f(n):\n    return n * 2\nprint(f(3)) # paroxython: multiplication_operator pure_function:f",
+    "a = 1 + 2\nb = 3 # paroxython: node:Assign literal:1 binary_operator:Add",
+    "acc = 0\nfor i in range(5): # paroxython: accumulate_elements:Add...\n    acc = acc + i\nprint(acc) # paroxython: ...accumulate_elements:Add",
+    "a = 1 + 2 # paroxython: addition_operator -addition_operator\nb = 4 + 5",
+]
+
 BODY = [
     "x = 1",
     "t = [ 1, 2 ] + [3]",
@@ -153,6 +167,8 @@ def gen_files(rng, dotted=False):
             rng.shuffle(lines)
         k = rng.choice([0, 1, 1, 2, 3])
         body = [rng.choice(BODY) if rng.random() < 0.8 else rng.choice(ODD_BODY) for _ in range(k)]
+        if rng.random() < 0.12:
+            body = [rng.choice(HINTED)]  # hints are numbered on the stored lines: keep the hinted program whole
         if rng.random() < 0.3:
             # an import nested in a function
             q = rng.choice(paths)
@@ -438,6 +454,31 @@ def judge_dir(ctx, drv, files, root, out_dir, cleanup="full"):
     progs = progs_request(res)
     if progs is None:
         return {"kind": "machinery", "what": "recording wrappers did not see one call per program"}
+    # exact inverted indexes: a program is listed once under a name (the record has the name once as a key)
+    for index in ("labels", "taxa"):
+        for name, paths in res["json"][index].items():
+            if len(paths) != len(set(paths)):
+                return {"kind": "violation",
+                        "what": f"the {index} index lists a program twice under {name}: not the exact inverse of the records",
+                        "impl": {index: {name: paths}}, "spec": {index: {name: list(dict.fromkeys(paths))}}}
+    # "its labels are those computed": independent oracle = the multiset union over ALL the entries of ProgramParser's
+    # result (a hinted label may bear the name of a computed one), sorted distinct spans, projected on (start, end)
+    for pr in progs:
+        union = {}
+        for name, spans in pr["labels"]:
+            union.setdefault(name, set()).update((a, b, pth) for a, b, pth in spans)
+        stored = res["json"]["programs"][pr["path"]]["labels"]
+        for name, bag in union.items():
+            if name.startswith("import"):
+                continue  # renamed by the relabelling of internal imports: left to the model comparison
+            expected = [[a, b] for a, b, _ in sorted(bag)]
+            if stored.get(name) != expected:
+                entries = [sp for n, sp in pr["labels"] if n == name]
+                return {"kind": "violation",
+                        "what": f"the stored spans of label {name} are not those computed (all the entries of that name in "
+                                f"ProgramParser's result)",
+                        "impl": {"program": pr["path"], "stored": stored.get(name), "entries_of_ProgramParser": entries},
+                        "spec": {"expected": expected}}
     m = drv.call("c11.model", progs=progs)
     if "exc" in m:
         return {"kind": "broken", "what": f"model raises {m['exc']} where the implementation returns",
@@ -604,6 +645,10 @@ def fixed_dirs():
                     "pkg/q.py": "def g():\n    return 1\n", "pkg/sub/n.py": "from pkg import q\nimport q\n",
                     "q.py": "import pkg.m\nimport unknown\n", "top.py": "from pkg.sub import n\nfrom pkg.sub.n import z\n"}),
         ("empty", {"a.py": "", "b.py": "import a\n"}),
+        ("hinted-sql-name", {"a.py": HINTED[0] + "\n"}),
+        ("hinted-shapes", {"a.py": HINTED[1] + "\n", "b.py": "import a\n" + HINTED[2] + "\n", "c.py": HINTED[3] + "\n",
+                           "d.py": HINTED[4] + "\n", "e.py": HINTED[5] + "\n", "f.py": HINTED[6] + "\n",
+                           "g.py": HINTED[7] + "\n", "h.py": HINTED[8] + "\n"}),
         # valid programs whose flattening fails (huge literals, 1500-branch elif chain): reported, never aborting (fix d1e6a10)
         ("unflattenable", {"a.py": "import b\nx = 1\n", "b.py": "y = 2\n", "big.py": "x = 0x" + "f" * 6000 + "\n",
                            "bits.py": "import a\nw = 0b" + "1" * 20000 + "\n",
@@ -756,14 +801,24 @@ def stream_helpers(ctx, drv):
         impl_t = [[k2, [list(x) for x in v]] for k2, v in impl_t.items()]
         m = drv.call("c11.prepared", labels=[[n, [list(s) for s in sp]] for n, sp in labels])["r"]
         ctx.count("prepared-spans", json.dumps(labels), nontrivial=k > 0)
-        if impl != m or impl_t != m:
-            ok_sorted = all(v == sorted(v) for _, v in impl) and all(v == sorted(v) for _, v in impl_t)
-            if not ok_sorted:
-                ctx.violations.append({"what": "prepared_labels/prepared_taxa: spans not sorted",
-                                       "replay": {"kind": "prepared", "labels": labels, "impl": impl, "impl_taxa": impl_t, "model": m}})
+        union = {}
+        for nm, spans in labels:
+            union.setdefault(nm, set()).update(spans)
+        expected = [[nm, [[a, b] for a, b, _ in sorted(bag)]] for nm, bag in union.items()]
+        if impl != expected:
+            ctx.violations.append({"what": "prepared_labels does not keep the spans of all the entries of a name",
+                                   "replay": {"kind": "prepared", "labels": labels, "impl": impl, "model": m, "spec": expected}})
+        elif impl != m:
+            ctx.broken.append("corr:prepared")
+            ctx.notes.append({"labels": labels, "impl": impl, "model": m})
+        mt = drv.call("c11.prepared_taxa", labels=[[n, [list(s) for s in sp]] for n, sp in labels])["r"]
+        if impl_t != mt:
+            if not all(v == sorted(v) for _, v in impl_t):
+                ctx.violations.append({"what": "prepared_taxa: spans not sorted",
+                                       "replay": {"kind": "prepared", "labels": labels, "impl_taxa": impl_t, "model": mt}})
             else:
-                ctx.broken.append("corr:prepared")
-                ctx.notes.append({"labels": labels, "impl": impl, "impl_taxa": impl_t, "model": m})
+                ctx.broken.append("corr:prepared-taxa")
+                ctx.notes.append({"labels": labels, "impl_taxa": impl_t, "model": mt})
         # inverted index
         progs = []
         occ = []
@@ -775,8 +830,15 @@ def stream_helpers(ctx, drv):
         impl = [[k2, v] for k2, v in sorted(mdb.collect_labels(progs).items())]
         impl2 = [[k2, v] for k2, v in sorted(mdb.collect_taxa(progs).items())]
         m = drv.call("c11.collect", occ=occ)["r"]
+        ml = drv.call("c11.collect_labels", occ=occ)["r"]
         ctx.count("inverted-index", json.dumps(occ), nontrivial=bool(occ))
-        if impl != m or impl2 != m:
+        if any(len(v) != len(set(v)) for _, v in impl):
+            ctx.violations.append({"what": "collect_labels lists a program twice under a label name (not the exact inverse of the records)",
+                                   "replay": {"kind": "collect", "occurrences": occ, "impl_labels": impl, "model=spec": ml}})
+        elif impl != ml:
+            ctx.broken.append("corr:collect-labels")
+            ctx.notes.append({"occurrences": occ, "impl": impl, "model": ml})
+        if impl2 != m:
             ctx.violations.append({"what": "collect_labels/collect_taxa is not the inverted index of the records",
                                    "replay": {"kind": "collect", "occurrences": occ, "impl_labels": impl, "impl_taxa": impl2, "model=spec": m}})
 
